@@ -3063,152 +3063,157 @@ def transform_pseudo_instructions(items, constants, labels):
             new_items.append(item)
             continue
 
-        if item.name == 'nop':
-            inst = ITypeInstruction(item.line, 'addi', rd='x0', rs1='x0', imm=Arithmetic('0'))
-        elif item.name == 'li':
-            rd, *imm = item.args
-            try:
+        # the expansions unpack item.args and parse operands: a wrong operand count or a malformed
+        # operand trips the tuple unpacking there
+        try:
+            if item.name == 'nop':
+                inst = ITypeInstruction(item.line, 'addi', rd='x0', rs1='x0', imm=Arithmetic('0'))
+            elif item.name == 'li':
+                rd, *imm = item.args
+                try:
+                    imm = parse_immediate(imm, item.line)
+                except (ValueError, IndexError):
+                    raise AssemblerError('invalid syntax (malformed expression)', item.line)
+                # check if eligible for single inst expansion
+                env = ChainMap(constants, labels)
+                value = imm.eval(position, env, item.line)
+                value = c_int32(value).value  # signed imm
+                # labels and positions are still moving: a value that depends on them may leave the
+                # 12-bit range after this decision, so only a static value takes the short form
+                try:
+                    imm.eval(position, constants, item.line)
+                    static = not is_position_relative(imm)
+                except AssemblerError:
+                    static = False
+                if static and value >= (-2**11) and value <= (2**11 - 1):
+                    inst = ITypeInstruction(item.line, 'addi', rd=rd, rs1='x0', imm=Lo(imm))
+                    # shrink all subsequent labels by 4
+                    new_labels = {k: v - 4 for k, v in labels.items() if v > position}
+                    labels.update(new_labels)
+                else:
+                    # expanding 1 inst into 2
+                    inst = UTypeInstruction(item.line, 'lui', rd=rd, imm=Hi(imm))
+                    position += inst.size()
+                    new_items.append(inst)
+                    log_conversion('transform_pseudo_instructions', item, inst)
+
+                    # the ADDI sits 4 bytes after the LUI (a LUI of a position-relative value is never
+                    # compressed) but completes the value the LUI started
+                    inst = ITypeInstruction(item.line, 'addi', rd=rd, rs1=rd, imm=Lo(Earlier(imm, 4)))
+            elif item.name == 'mv':
+                rd, rs = item.args
+                inst = ITypeInstruction(item.line, 'addi', rd=rd, rs1=rs, imm=Arithmetic('0'))
+            elif item.name == 'not':
+                rd, rs = item.args
+                inst = ITypeInstruction(item.line, 'xori', rd=rd, rs1=rs, imm=Arithmetic('-1'))
+            elif item.name == 'neg':
+                rd, rs = item.args
+                inst = RTypeInstruction(item.line, 'sub', rd=rd, rs1='x0', rs2=rs)
+            elif item.name == 'seqz':
+                rd, rs = item.args
+                inst = ITypeInstruction(item.line, 'sltiu', rd=rd, rs1=rs, imm=Arithmetic('1'))
+            elif item.name == 'snez':
+                rd, rs = item.args
+                inst = RTypeInstruction(item.line, 'sltu', rd=rd, rs1='x0', rs2=rs)
+            elif item.name == 'sltz':
+                rd, rs = item.args
+                inst = RTypeInstruction(item.line, 'slt', rd=rd, rs1=rs, rs2='x0')
+            elif item.name == 'sgtz':
+                rd, rs = item.args
+                inst = RTypeInstruction(item.line, 'slt', rd=rd, rs1='x0', rs2=rs)
+
+            elif item.name in ['beqz', 'bnez', 'bgez', 'bltz']:
+                names = {'beqz': 'beq', 'bnez': 'bne', 'bgez': 'bge', 'bltz': 'blt'}
+                rs, reference = item.args
+                imm = ['%offset', reference]
                 imm = parse_immediate(imm, item.line)
-            except (ValueError, IndexError):
-                raise AssemblerError('invalid syntax (malformed expression)', item.line)
-            # check if eligible for single inst expansion
-            env = ChainMap(constants, labels)
-            value = imm.eval(position, env, item.line)
-            value = c_int32(value).value  # signed imm
-            # labels and positions are still moving: a value that depends on them may leave the
-            # 12-bit range after this decision, so only a static value takes the short form
-            try:
-                imm.eval(position, constants, item.line)
-                static = not is_position_relative(imm)
-            except AssemblerError:
-                static = False
-            if static and value >= (-2**11) and value <= (2**11 - 1):
-                inst = ITypeInstruction(item.line, 'addi', rd=rd, rs1='x0', imm=Lo(imm))
-                # shrink all subsequent labels by 4
-                new_labels = {k: v - 4 for k, v in labels.items() if v > position}
-                labels.update(new_labels)
-            else:
-                # expanding 1 inst into 2
-                inst = UTypeInstruction(item.line, 'lui', rd=rd, imm=Hi(imm))
-                position += inst.size()
-                new_items.append(inst)
-                log_conversion('transform_pseudo_instructions', item, inst)
+                inst = BTypeInstruction(item.line, names[item.name], rs1=rs, rs2='x0', imm=imm)
+            elif item.name in ['blez', 'bgtz']:
+                names = {'blez': 'bge', 'bgtz': 'blt'}
+                rs, reference = item.args
+                imm = ['%offset', reference]
+                imm = parse_immediate(imm, item.line)
+                inst = BTypeInstruction(item.line, names[item.name], rs1='x0', rs2=rs, imm=imm)
 
-                # the ADDI sits 4 bytes after the LUI (a LUI of a position-relative value is never
-                # compressed) but completes the value the LUI started
-                inst = ITypeInstruction(item.line, 'addi', rd=rd, rs1=rd, imm=Lo(Earlier(imm, 4)))
-        elif item.name == 'mv':
-            rd, rs = item.args
-            inst = ITypeInstruction(item.line, 'addi', rd=rd, rs1=rs, imm=Arithmetic('0'))
-        elif item.name == 'not':
-            rd, rs = item.args
-            inst = ITypeInstruction(item.line, 'xori', rd=rd, rs1=rs, imm=Arithmetic('-1'))
-        elif item.name == 'neg':
-            rd, rs = item.args
-            inst = RTypeInstruction(item.line, 'sub', rd=rd, rs1='x0', rs2=rs)
-        elif item.name == 'seqz':
-            rd, rs = item.args
-            inst = ITypeInstruction(item.line, 'sltiu', rd=rd, rs1=rs, imm=Arithmetic('1'))
-        elif item.name == 'snez':
-            rd, rs = item.args
-            inst = RTypeInstruction(item.line, 'sltu', rd=rd, rs1='x0', rs2=rs)
-        elif item.name == 'sltz':
-            rd, rs = item.args
-            inst = RTypeInstruction(item.line, 'slt', rd=rd, rs1=rs, rs2='x0')
-        elif item.name == 'sgtz':
-            rd, rs = item.args
-            inst = RTypeInstruction(item.line, 'slt', rd=rd, rs1='x0', rs2=rs)
+            elif item.name in ['bgt', 'ble', 'bgtu', 'bleu']:
+                names = {'bgt': 'blt', 'ble': 'bge', 'bgtu': 'bltu', 'bleu': 'bgeu'}
+                rs, rt, reference = item.args
+                imm = ['%offset', reference]
+                imm = parse_immediate(imm, item.line)
+                inst = BTypeInstruction(item.line, names[item.name], rs1=rt, rs2=rs, imm=imm)
 
-        elif item.name in ['beqz', 'bnez', 'bgez', 'bltz']:
-            names = {'beqz': 'beq', 'bnez': 'bne', 'bgez': 'bge', 'bltz': 'blt'}
-            rs, reference = item.args
-            imm = ['%offset', reference]
-            imm = parse_immediate(imm, item.line)
-            inst = BTypeInstruction(item.line, names[item.name], rs1=rs, rs2='x0', imm=imm)
-        elif item.name in ['blez', 'bgtz']:
-            names = {'blez': 'bge', 'bgtz': 'blt'}
-            rs, reference = item.args
-            imm = ['%offset', reference]
-            imm = parse_immediate(imm, item.line)
-            inst = BTypeInstruction(item.line, names[item.name], rs1='x0', rs2=rs, imm=imm)
-
-        elif item.name in ['bgt', 'ble', 'bgtu', 'bleu']:
-            names = {'bgt': 'blt', 'ble': 'bge', 'bgtu': 'bltu', 'bleu': 'bgeu'}
-            rs, rt, reference = item.args
-            imm = ['%offset', reference]
-            imm = parse_immediate(imm, item.line)
-            inst = BTypeInstruction(item.line, names[item.name], rs1=rt, rs2=rs, imm=imm)
-
-        elif item.name == 'j':
-            reference, = item.args
-            imm = ['%offset', reference]
-            imm = parse_immediate(imm, item.line)
-            inst = JTypeInstruction(item.line, 'jal', rd='x0', imm=imm)
-        elif item.name == 'jal':
-            reference, = item.args
-            imm = ['%offset', reference]
-            imm = parse_immediate(imm, item.line)
-            inst = JTypeInstruction(item.line, 'jal', rd='x1', imm=imm)
-        elif item.name == 'jr':
-            rs, = item.args
-            inst = ITypeInstruction(item.line, 'jalr', rd='x0', rs1=rs, imm=Arithmetic('0'))
-        elif item.name == 'jalr':
-            rs, = item.args
-            inst = ITypeInstruction(item.line, 'jalr', rd='x1', rs1=rs, imm=Arithmetic('0'))
-        elif item.name == 'ret':
-            inst = ITypeInstruction(item.line, 'jalr', rd='x0', rs1='x1', imm=Arithmetic('0'))
-        elif item.name == 'call':
-            reference, = item.args
-            imm = ['%offset', reference]
-            imm = parse_immediate(imm, item.line)
-            # check if eligible for single inst expansion
-            env = ChainMap(constants, labels)
-            value = imm.eval(position, env, item.line)
-            value = c_int32(value).value  # signed imm
-            # an absolute target (a constant) does not move while this call still moves toward 0
-            worst = c_int32(imm.eval(0, env, item.line)).value if reference in constants else value
-            if value >= (-2**20) and max(value, worst) <= (2**20 - 1):
-                inst = JTypeInstruction(item.line, 'jal', rd='x1', imm=imm)
-                # shrink all subsequent labels by 4
-                new_labels = {k: v - 4 for k, v in labels.items() if v > position}
-                labels.update(new_labels)
-            else:
-                # expanding 1 inst into 2
-                inst = UTypeInstruction(item.line, 'auipc', rd='x1', imm=Hi(imm))
-                position += inst.size()
-                new_items.append(inst)
-                log_conversion('transform_pseudo_instructions', item, inst)
-
-                inst = ITypeInstruction(item.line, 'jalr', rd='x1', rs1='x1', imm=Lo(imm), is_auipc_jump=True)
-        elif item.name == 'tail':
-            reference, = item.args
-            imm = ['%offset', reference]
-            imm = parse_immediate(imm, item.line)
-            # check if eligible for single inst expansion
-            env = ChainMap(constants, labels)
-            value = imm.eval(position, env, item.line)
-            value = c_int32(value).value  # signed imm
-            # an absolute target (a constant) does not move while this jump still moves toward 0
-            worst = c_int32(imm.eval(0, env, item.line)).value if reference in constants else value
-            if value >= (-2**20) and max(value, worst) <= (2**20 - 1):
+            elif item.name == 'j':
+                reference, = item.args
+                imm = ['%offset', reference]
+                imm = parse_immediate(imm, item.line)
                 inst = JTypeInstruction(item.line, 'jal', rd='x0', imm=imm)
-                # shrink all subsequent labels by 4
-                new_labels = {k: v - 4 for k, v in labels.items() if v > position}
-                labels.update(new_labels)
+            elif item.name == 'jal':
+                reference, = item.args
+                imm = ['%offset', reference]
+                imm = parse_immediate(imm, item.line)
+                inst = JTypeInstruction(item.line, 'jal', rd='x1', imm=imm)
+            elif item.name == 'jr':
+                rs, = item.args
+                inst = ITypeInstruction(item.line, 'jalr', rd='x0', rs1=rs, imm=Arithmetic('0'))
+            elif item.name == 'jalr':
+                rs, = item.args
+                inst = ITypeInstruction(item.line, 'jalr', rd='x1', rs1=rs, imm=Arithmetic('0'))
+            elif item.name == 'ret':
+                inst = ITypeInstruction(item.line, 'jalr', rd='x0', rs1='x1', imm=Arithmetic('0'))
+            elif item.name == 'call':
+                reference, = item.args
+                imm = ['%offset', reference]
+                imm = parse_immediate(imm, item.line)
+                # check if eligible for single inst expansion
+                env = ChainMap(constants, labels)
+                value = imm.eval(position, env, item.line)
+                value = c_int32(value).value  # signed imm
+                # an absolute target (a constant) does not move while this call still moves toward 0
+                worst = c_int32(imm.eval(0, env, item.line)).value if reference in constants else value
+                if value >= (-2**20) and max(value, worst) <= (2**20 - 1):
+                    inst = JTypeInstruction(item.line, 'jal', rd='x1', imm=imm)
+                    # shrink all subsequent labels by 4
+                    new_labels = {k: v - 4 for k, v in labels.items() if v > position}
+                    labels.update(new_labels)
+                else:
+                    # expanding 1 inst into 2
+                    inst = UTypeInstruction(item.line, 'auipc', rd='x1', imm=Hi(imm))
+                    position += inst.size()
+                    new_items.append(inst)
+                    log_conversion('transform_pseudo_instructions', item, inst)
+
+                    inst = ITypeInstruction(item.line, 'jalr', rd='x1', rs1='x1', imm=Lo(imm), is_auipc_jump=True)
+            elif item.name == 'tail':
+                reference, = item.args
+                imm = ['%offset', reference]
+                imm = parse_immediate(imm, item.line)
+                # check if eligible for single inst expansion
+                env = ChainMap(constants, labels)
+                value = imm.eval(position, env, item.line)
+                value = c_int32(value).value  # signed imm
+                # an absolute target (a constant) does not move while this jump still moves toward 0
+                worst = c_int32(imm.eval(0, env, item.line)).value if reference in constants else value
+                if value >= (-2**20) and max(value, worst) <= (2**20 - 1):
+                    inst = JTypeInstruction(item.line, 'jal', rd='x0', imm=imm)
+                    # shrink all subsequent labels by 4
+                    new_labels = {k: v - 4 for k, v in labels.items() if v > position}
+                    labels.update(new_labels)
+                else:
+                    # expanding 1 inst into 2
+                    inst = UTypeInstruction(item.line, 'auipc', rd='x6', imm=Hi(imm))
+                    position += inst.size()
+                    new_items.append(inst)
+                    log_conversion('transform_pseudo_instructions', item, inst)
+
+                    inst = ITypeInstruction(item.line, 'jalr', rd='x0', rs1='x6', imm=Lo(imm), is_auipc_jump=True)
+
+            elif item.name == 'fence':
+                inst = FenceInstruction(item.line, 'fence', succ=0b1111, pred=0b1111)
+
             else:
-                # expanding 1 inst into 2
-                inst = UTypeInstruction(item.line, 'auipc', rd='x6', imm=Hi(imm))
-                position += inst.size()
-                new_items.append(inst)
-                log_conversion('transform_pseudo_instructions', item, inst)
-
-                inst = ITypeInstruction(item.line, 'jalr', rd='x0', rs1='x6', imm=Lo(imm), is_auipc_jump=True)
-
-        elif item.name == 'fence':
-            inst = FenceInstruction(item.line, 'fence', succ=0b1111, pred=0b1111)
-
-        else:
-            raise AssemblerError('no translation for pseudo-instruction: {}'.format(item.name), item.line)
+                raise AssemblerError('no translation for pseudo-instruction: {}'.format(item.name), item.line)
+        except (ValueError, IndexError):
+            raise AssemblerError('invalid syntax (wrong number of operands or malformed expression)', item.line)
 
         position += inst.size()
         new_items.append(inst)
